@@ -18,6 +18,8 @@ type Scenario struct {
 	Check sched.CheckFunc
 	Model sched.CostModel
 	Fine  bool
+	// AfterRelease adds a scheduling point after every mutex release (see sched.Opts).
+	AfterRelease bool
 	// NoCache disables happens-before state caching (two-endpoint harnesses: the
 	// cache prunes little there and std context state is not hashed).
 	NoCache bool
